@@ -290,6 +290,11 @@ class World:
                  ssl_context_container=None, shared_scheme=None, max_subscription_duration=15):
         from sdc11073.provider.providerimpl import provider_components_async_factory, provider_components_sync_factory
         from tests import mockstuff
+        from tutorial.productandroles import alarmprovider
+        # the tutorial AlertSystemStateMaintainer runs a periodic self-check transaction in a worker thread (every
+        # second of real time it looks whether one is due): it would interleave nondeterministically with the histories
+        # the harness drives (observed: 4 of 4482 cases of a thorough C03 run blamed an aborted transaction for it)
+        alarmprovider.AlertSystemStateMaintainer.WORKER_THREAD_INTERVAL = 36000.0
         logging.getLogger('sdc').setLevel(logging.CRITICAL)
         self.net = Net()
         LoopClient.net = self.net
